@@ -136,6 +136,9 @@ func init() {
 		rtPkg + ".IteU64": func(m *Machine, _ *Thread, _ *Frame, a []Value, _ ssa.Value) Value {
 			return Ite(a[0].(*Term), a[1].(*Term), a[2].(*Term))
 		},
+		rtPkg + ".IteBool": func(m *Machine, _ *Thread, _ *Frame, a []Value, _ ssa.Value) Value {
+			return Ite(a[0].(*Term), a[1].(*Term), a[2].(*Term))
+		},
 		rtPkg + ".And": func(m *Machine, _ *Thread, _ *Frame, a []Value, _ ssa.Value) Value {
 			return And(a[0].(*Term), a[1].(*Term))
 		},
@@ -199,6 +202,9 @@ func init() {
 			return nil
 		},
 		rtPkg + ".Block": func(m *Machine, th *Thread, _ *Frame, a []Value, _ ssa.Value) Value {
+			if th.id == 0 {
+				panic(m.goPanic("deadlock: the only runnable thread blocks forever"))
+			}
 			th.blocked = true
 			return nil
 		},
